@@ -309,6 +309,16 @@ Loop:
 				return zerr.UnexpectedParamWildcard()
 			}
 		default:
+			// a required param is missing
+			if idx >= len(values) {
+				minParams := 0
+				for _, ts := range typeStr {
+					if !strings.HasSuffix(ts, "*") && !strings.HasSuffix(ts, "?") {
+						minParams += 1
+					}
+				}
+				return zerr.LeastParamsError(minParams)
+			}
 			if err := validateOneParam(values[idx], t); err != nil {
 				return err
 			}
@@ -371,10 +381,9 @@ func validateOneParam(v r.Element, typeStr string) error {
 
 	// if typeStr starts with "govalue" then check if v is *GoValue and tag is equal "<tag>" after "golang:"
 	if strings.HasPrefix(typeStr, "golang:") {
-		if _, ok := v.(*GoValue); !ok {
+		if gv, ok := v.(*GoValue); !ok {
 			valid = false
-		}
-		if v.(*GoValue).GetTag() != strings.TrimPrefix(typeStr, "golang:") {
+		} else if gv.GetTag() != strings.TrimPrefix(typeStr, "golang:") {
 			valid = false
 		}
 	}
